@@ -188,6 +188,10 @@ def scenario(rng):
     keys = rng.sample(cols, k)
     conds = {c: cond(rng, t[c]) for c in keys}
     q = rng.random()
+    if r < 0.29:
+        # a callable AND keyword filters: outside the property's quantifier (the statement speaks of a single predicate
+        # OR a conjunction of column conditions); model and code are still compared (correspondence only, no law)
+        return t, pred(rng, cols), conds, None, 'callable+keyword'
     if q < 0.15:
         return t, None, {}, conds, 'dict-filter'
     if q < 0.22 and k == 2:
@@ -339,7 +343,7 @@ def laws(rng, tier, ctx):
     for _ in range(n):
         sc = scenario(rng)
         t, p, kw, dc, tag = sc
-        if tag in ('callable-missing-column', 'missing-key'):
+        if tag in ('callable-missing-column', 'missing-key', 'callable+keyword'):
             continue
         nrows = len(list(t.values())[0]) if t else 0
         conds = effective(kw, dc)
